@@ -34,7 +34,7 @@ SPEC = {
              "dynamic-field target x B built before or after A's mutation; F46 cases) plus seeded random schemas (2-5 fields, "
              "typed and untyped list/dict with literal, callable or no default, item schemas / config types reused, dynamic "
              "schemas) with 1-5 live configurations and histories of 2-9 (thorough: 2-16) operations, mostly on configuration 0, "
-             "builds interleaved, cross-configuration assignments (cfg_i.x = value read from cfg_j.x, for scalar fields and typed list/dict fields of scalars, followed by in-place mutations on either side) and observers (to_tree, dumps(json), asdict, validate, get_all_fields: must change nothing, model = no-op); non-trivial = at least two configurations and at least one operation that did not raise; "
+             "builds interleaved, cross-configuration assignments (cfg_i.x = value read from cfg_j.x, for scalar fields and typed list/dict fields of scalars, followed by in-place mutations on either side) clones (cfg_j.load_tree(cfg_i.to_tree()) and dumps/loads(json), at the root or a sub-configuration, followed by in-place mutations on either side; a 26-case matrix on a schema of the kinds to_tree copies at every depth, plus 120 (thorough: 2000) random histories on it) and observers (to_tree, dumps(json), asdict, validate, get_all_fields: must change nothing, model = no-op); non-trivial = at least two configurations and at least one operation that did not raise; "
              "distinct = distinct (schema, history). hmerge: 36-case matrix + random map pairs; non-trivial = a shared key"),
     "trusted_base": [KERNEL, "Print Assumptions: closed under the global context (no axioms)", TIE, HARNESS,
                      "modelled, not verified: validation of scalar items is the identity (generators stay well-typed; "
@@ -49,5 +49,15 @@ SPEC = {
                     "cross-configuration assignment is generated only where the library copies the whole value (scalars, typed "
                     "list/dict of scalars); in the model it is OpSet with a fresh copy of the value read (xstep, correspondence only). "
                     "Assigning an UNTYPED list/dict read from another configuration stores the same object, and a typed container "
-                    "of containers shares its inner items: caller-made aliasing, outside the property (DESIGN.md 3.4)"],
+                    "of containers shares its inner items: caller-made aliasing, outside the property (DESIGN.md 3.4)",
+                    "clone events (cfg_j.load_tree(cfg_i.to_tree()) or through dumps/loads json) are executed only when every "
+                    "current value of the origin is of a kind whose to_tree() is fresh at every depth (run-time harness "
+                    "predicate, tag clone-skipped otherwise; model: XClone = load of tree_val, correspondence only). Observed on the "
+                    "unchanged tree and NOT counted (to_basic copies one level, the untyped import path keeps identity; "
+                    "caller-made aliasing): after b.load_tree(a.to_tree()) b shares with a the inner object of "
+                    "(1) DictField(default={'k': [1]}), (2) ListField(default=[[1], {'a': 1}]), "
+                    "(3) ListField(DictField(), default=[{'a': [1]}]) (the inner list), (4) ListField(default=[(1, [2])]), "
+                    "(5) a bare Field / AnyField holding a list or dict, (6) a dynamic field holding a dict; through "
+                    "dumps/loads nothing is shared. A typed list/dict field holding None comes back from such a round trip as "
+                    "an empty proxy (C02's normalisation): also skipped"],
 }
